@@ -171,7 +171,7 @@ func (fr *Frame) callStatic(st *State, fn *ssa.Function, args, free []Val, pos t
 	}
 	pkg := fnPkgPath(fn)
 	// user contract?
-	if c := ex.w.contractFor(fn); c != nil && !(fr.depth == 0 && false) {
+	if c := ex.w.contractFor(fn, fr.fn); c != nil && !(fr.depth == 0 && false) {
 		return fr.applyContract(st, fn, c, args, pos)
 	}
 	// library handles whose methods dereference the receiver: calling them on a nil pointer panics
